@@ -99,6 +99,19 @@ fn families() -> Vec<Family> {
 		}
 		f.push(Family { name: "append-only-tree+rc", cfg, valid, invalid });
 	}
+	// D: multitree + a column with BOTH btree_index and multitree set (valid options; the crate opens it as a btree
+	// column): tree operations on it must be refused before anything of the transaction took effect
+	{
+		let both = ColSpec { btree: true, multitree: true, ..Default::default() };
+		let cfg = Config::new(vec![ColSpec::tree(), both]);
+		let base: Tx = vec![(0, Op::InsertTree(k(30), tree(8, 2))), (1, Op::Set(k(1), v(1))), (0, Op::InsertTree(k(31), tree(9, 1)))];
+		let valid = vec![vec![(0, Op::InsertTree(k(32), tree(10, 1))), (1, Op::Set(k(2), v(2)))], vec![(0, Op::DerefTree(k(32))), (1, Op::Del(k(2)))]];
+		let mut invalid = vec![];
+		for bad in [(1u8, Op::InsertTree(k(33), tree(11, 2))), (1u8, Op::DerefTree(k(1))), (1u8, Op::RefTree(k(1))), (1u8, Op::Ref(k(1)))] {
+			invalid.extend(with_invalid(&base, &bad));
+		}
+		f.push(Family { name: "multitree+btree-and-multitree-flags", cfg, valid, invalid });
+	}
 	f
 }
 
@@ -107,6 +120,17 @@ fn scenario(fam: &Family, name: &str, invalid: Vec<Tx>, n: usize, x: usize, bg: 
 	all.extend(invalid.clone());
 	let mut s = Scenario::new(&format!("{}/{}", fam.name, name), fam.cfg.clone(), fam.valid.clone());
 	s.universe = universe_of(&fam.cfg, &all, &[]);
+	// `get` / `get_size` are refused by the crate on any column that has the multitree flag, also when the column is
+	// opened as a btree column (both flags): such a column is read through its iterator only
+	if fam.cfg.cols.iter().any(|c| c.btree && c.multitree) {
+		let mut u: Vec<Vec<Vec<u8>>> = (*s.universe).clone();
+		for (i, c) in fam.cfg.cols.iter().enumerate() {
+			if c.btree && c.multitree {
+				u[i].clear();
+			}
+		}
+		s.universe = Arc::new(u);
+	}
 	s.max_commits = n;
 	s.max_rejects = 1;
 	s.max_reopen = x;
